@@ -32,6 +32,22 @@ Inductive engine :=
 | EText (s : str)         (* SELECT <literal> returned this text *)
 | EInt (z : Z).           (* ... this integer *)
 
+Inductive seqpos := SPlain | SIn (col : str) | SCall (name : str).
+
+Definition seq_sql (p : seqpos) (d : dialect) (vs : list value) : option str :=
+  match p with SPlain => render d (VSeq vs) | SIn col => in_sql d col vs | SCall name => call_sql d name vs end.
+Definition seq_skeleton (p : seqpos) (d : dialect) (vs : list value) : list token :=
+  match p with SPlain => lit_tokens d (VSeq vs) | SIn col => in_skeleton d col vs | SCall name => call_skeleton d name vs end.
+(* the tokens of the list inside the tokens of the position's template *)
+Definition seq_list_tokens (p : seqpos) (toks : list token) : list token :=
+  match p with
+  | SPlain => toks
+  | SIn _ => removelast (skipn 5 toks)
+  | SCall _ => tl toks
+  end.
+Definition members_eqb (a b : option (list (list token))) : bool :=
+  option_eqb (list_eqb (list_eqb token_eqb)) a b.
+
 Inductive case :=
 (* a value; sqlrepr(v, d) for the seven dialects (order of all_dialects); what the python
    reference lexers made of each text (strings only, else []); what sqlite answered to SELECT <text> *)
@@ -41,6 +57,11 @@ Inductive case :=
 | CClause (d : dialect) (items : list (str * value)) (text : str)
 | CEq (d : dialect) (col : str) (v : value) (text : str)
 | CIn (d : dialect) (col : str) (vs : list value) (text : str)
+(* a sequence of values in one of the positions where the library writes a comma-separated literal list,
+   rendered for the seven dialects (order of all_dialects); counts = how many top-level members the python
+   splitter of the oracle read from each text:
+   SPlain -- sqlrepr(tuple / list / set ...); SIn col -- IN(col, values); SCall name -- func.name( *values ) *)
+| CSeqAll (p : seqpos) (vs : list value) (texts : list str) (counts : list nat)
 (* a stream judged by the oracle only (floats, decimals, real-table runs) *)
 | COracleOnly.
 
@@ -103,5 +124,26 @@ Definition agree (c : case) : bool :=
   | CIn d col vs text =>
       opt_str_eqb (in_sql d col vs) (Some text)
       && (if forallb (value_ok d) vs then tres_is (tokens d text) (in_skeleton d col vs) else true)
+  | CSeqAll p vs texts counts =>
+      (* exact text, all seven dialects *)
+      list_eqb opt_str_eqb (map (fun d => seq_sql p d vs) all_dialects) (map Some texts)
+      && forallb (fun q => let '(d, t, n) := q in
+           if forallb (value_ok d) vs then
+             match tokens d t with
+             | TOk toks =>
+                 (* the tokenizer reads the template's skeleton ... *)
+                 list_eqb token_eqb toks (seq_skeleton p d vs)
+                 (* ... the members of the list in it are the literal tokens of each value, in order ... *)
+                 && members_eqb (members (seq_list_tokens p toks)) (Some (map (lit_tokens d) vs))
+                 (* ... and the oracle's python splitter counted the same number of members *)
+                 && match members (seq_list_tokens p toks) with
+                    | Some ms => Nat.eqb (length ms) n
+                    | None => false
+                    end
+             | _ => false
+             end
+           else true)
+         (combine (combine all_dialects texts) counts)
+      && Nat.eqb (length texts) 7 && Nat.eqb (length counts) 7
   | COracleOnly => true
   end.
